@@ -169,7 +169,7 @@ func genC11(t *rapid.T) *C11Case {
 	} else {
 		c.Value = c11ScalarText(t, k.Elem(), c.Base)
 	}
-	if !k.IsFunc() && rapid.IntRange(0, 9).Draw(t, "hasChoices") < 2 {
+	if rapid.IntRange(0, 9).Draw(t, "hasChoices") < 2 {
 		n := rapid.IntRange(1, 3).Draw(t, "nchoices")
 		for i := 0; i < n; i++ {
 			c.Choices = append(c.Choices, genValidText(t, k, c.Base))
